@@ -16,7 +16,7 @@ for line in lst.split('\n'):
 pkgprops.setdefault('vnet', set()).add('C19'); pkgprops.setdefault('packetio', set()).add('C19')
 for p in ('deadline', 'dpipe', 'udp'):
     pkgprops.setdefault(p, set()).add('C19')
-ids = sys.argv[1:] or sorted(os.listdir(root))
+ids = sys.argv[1:] or sorted(x for x in os.listdir(root) if os.path.isdir(os.path.join(root, x)))
 results = []
 for nid in ids:
     d = os.path.join(root, nid)
